@@ -3,6 +3,7 @@
          the result of cmp, ne applies `!` to the result of eq; xcmp returns -1/0/1 consistently
   R19.2  component-wise derivation for tuples: arity mismatch is a bind error before components are paired; components are
          paired by one forward zip (no reversal) and the loop stops at the first deciding component
+  R19.4  natural-run detection of the merge sort: the reversed run extends while is_less, the kept run while !is_less
   R19.3  fail-safe sorting (typestate on MIR of util::trysort / util::try_heap): between a bitwise duplication and the
          construction of the drop guard that undoes it there is no comparator call and no return; guards implement Drop;
          no guard is forgotten
@@ -178,3 +179,58 @@ def run(ctx):
     if n_dup < 5:
         r3.fail('anchor/dups', '-', 'fewer duplication sites than confirmed by hand')
     r3.need(8)
+
+    # ---------------- R19.4 run detection of the merge sort agrees with the comparator (a contradiction rule: the two
+    # branches of "is the next pair descending?" must extend their run under complementary conditions)
+    r4 = ctx.rule('R19.4', 'natural-run detection: a reversed run is strictly descending, a kept run is non-descending')
+    TS = 'src/util/trysort.rs'
+    ts = [fn for f, fn, im in astq.all_fns(ast) if f == TS and fn['name'] == 'try_sort']
+    if len(ts) != 1:
+        r4.fail('anchor/try_sort', TS, 'try_sort not found')
+    else:
+        def cmp_calls(n):
+            """[(negated, operands)] for every comparator call is_less(a, b) under n"""
+            out = []
+            for c, ps in find_nodes(n, lambda y: y.get('k') == 'call' and src(y['func']) == 'is_less'):
+                neg = False
+                # negation applies when a `!` sits above the call with only macros / try / parens in between
+                for p in reversed(ps):
+                    k = p.get('k')
+                    if k == 'unary' and p['op'] == '!':
+                        neg = not neg
+                    elif k in ('macro', 'try', 'paren') or k is None:
+                        continue
+                    else:
+                        break
+                out.append((neg, tuple(src(a) for a in c['args'])))
+            return out
+        found = 0
+        for n, ps in find_nodes(ts[0]['body'], lambda y: y.get('k') == 'if' and y.get('else') is not None):
+            if not cmp_calls(n['cond']):
+                continue
+            th_w = [w for w, _ in find_nodes(n['then'], lambda y: y.get('k') == 'while')]
+            el_w = [w for w, _ in find_nodes(n['else'], lambda y: y.get('k') == 'while')]
+            if not th_w or not el_w:
+                continue
+            rev_then = bool(find_nodes(n['then'], lambda y: y.get('k') == 'mcall' and y['method'] == 'reverse'))
+            rev_else = bool(find_nodes(n['else'], lambda y: y.get('k') == 'mcall' and y['method'] == 'reverse'))
+            if rev_then == rev_else:
+                continue
+            found += 1
+            head = cmp_calls(n['cond'])[0]
+            desc_w, keep_w = (th_w[0], el_w[0]) if rev_then else (el_w[0], th_w[0])
+            cd, ck = cmp_calls(desc_w['cond']), cmp_calls(keep_w['cond'])
+            ok = len(cd) == 1 and len(ck) == 1 and cd[0][1] == ck[0][1] and cd[0][0] != ck[0][0]
+            # the branch that reverses is entered when the head comparison says "descending" (same polarity as its loop)
+            ok_dir = ok and (cd[0][0] == (head[0] if rev_then else not head[0]))
+            r4.inst({'if': '%s:%d' % (TS, n['line']), 'reversed_run_continues_while': ('!' if cd and cd[0][0] else '') + 'is_less' + str(cd[0][1] if cd else ''),
+                     'kept_run_continues_while': ('!' if ck and ck[0][0] else '') + 'is_less' + str(ck[0][1] if ck else '')}, ok=ok and ok_dir)
+            if not ok:
+                r4.fail('try_sort/run-detection/same-condition', '%s:%d' % (TS, keep_w['line']),
+                        'the descending-run loop and the non-descending-run loop extend their run under the same condition (%s / %s): one of them is wrong -- a kept run is not sorted, so merging produces unsorted output for inputs longer than the insertion-sort cutoff'
+                        % (('!' if cd and cd[0][0] else '') + 'is_less', ('!' if ck and ck[0][0] else '') + 'is_less'))
+            elif not ok_dir:
+                r4.fail('try_sort/run-detection/polarity', '%s:%d' % (TS, n['line']), 'the run that gets reversed is not the one detected as descending')
+        if not found:
+            r4.fail('anchor/run-detection', TS, 'the run-detection branch (if descending {extend; reverse} else {extend}) was not found in try_sort')
+    r4.need(1)
